@@ -234,6 +234,12 @@ def lint(root, S, known_external):
                         t = p.find(S.CORE + 'type')
                         tn = t.get('name') if t is not None else None
                         d = defs.get(tn) if tn else None
+                        hops = 0
+                        while d is not None and d.tag == S.CORE + 'alias' and hops < 20:       # a typedef (of a typedef ...) of a callback type
+                            at = d.find(S.CORE + 'type')
+                            tn = at.get('name') if at is not None else None
+                            d = defs.get(tn) if tn else None
+                            hops += 1
                         is_cb = (d is not None and d.tag == S.CORE + 'callback') or tn in ('GLib.Func',)
                         if is_cb and p.get('scope') is None and p.get('skip') != '1':      # a skipped parameter is not exposed
                             yield ('a callback parameter of an introspectable callable states no scope', el.get('name'))
@@ -349,10 +355,39 @@ def accessor_world(rng, S, ET):
             syms.append(S.func(name, S.VOID, [S.param('out_value', S.ptr(S.ptr(S.td(rt))))], line=210 + i))
             comments.append(('/**\n * %s:\n * @out_value: (out)%s: the value\n */' % (name, ' ' + ann if ann else ''), '/src/foo.c', cline))
         cline += 10
+    # variable arguments, documented or not, skipped or not
+    from giscanner.sourcescanner import CSYMBOL_TYPE_ELLIPSIS
+    for i in range(rng.randint(1, 3)):
+        name = 'foo_acc_printf_%d' % i
+        syms.append(S.func(name, S.VOID, [S.param('fmt', S.ptr(S.td('gchar'))), S.FS(CSYMBOL_TYPE_ELLIPSIS, None, base_type=None)], line=290 + i))
+        doc = rng.choice([None, ' * @...: arguments\n', ' * @...: (skip): arguments\n', ' * @...: (skip)\n'])
+        if doc is not None:
+            comments.append(('/**\n * %s:\n * @fmt: a format\n%s */' % (name, doc), '/src/foo.c', cline))
+            cline += 10
+    # containers whose element, key or value type is hidden, exotic or unknown: the callable cannot stay introspectable
+    syms += [S.FS(S.CSYMBOL_TYPE_TYPEDEF, 'FooHidden', base_type=S.FT(S.CTYPE_STRUCT, '_FooHidden'), line=300),
+             S.FS(S.CSYMBOL_TYPE_STRUCT, '_FooHidden', base_type=S.FT(S.CTYPE_STRUCT, '_FooHidden', child_list=[
+                 S.FS(S.CSYMBOL_TYPE_MEMBER, 'x', base_type=S.td('gint'), line=301)]), line=301),
+             S.FS(S.CSYMBOL_TYPE_TYPEDEF, 'FooBig', base_type=S.basic('long long'), line=305)]
+    comments.append(('/**\n * FooHidden: (skip)\n *\n * hidden\n */', '/src/foo.c', cline))
+    cline += 10
+    for i in range(rng.randint(2, 6)):
+        cont = rng.choice(['GHashTable', 'GHashTable', 'GList', 'GPtrArray'])
+        bad = rng.choice(['Foo.Hidden', 'Foo.Big', 'Foo.Nope', 'utf8', 'Foo.Plain', 'utf8'])
+        pos = rng.choice(['key', 'value']) if cont == 'GHashTable' else 'element'
+        et = ('%s utf8' % bad if pos == 'key' else 'utf8 %s' % bad) if cont == 'GHashTable' else bad
+        name = 'foo_acc_cont_%d' % i
+        syms.append(S.func(name, S.VOID, [S.param('c', S.ptr(S.td(cont)))], line=310 + i))
+        comments.append(('/**\n * %s:\n * @c: (element-type %s): a container\n */' % (name, et), '/src/foo.c', cline))
+        cline += 10
     dump = ('<?xml version="1.0"?><dump><class name="FooAcc" get-type="foo_acc_get_type" parents="GObject">'
             + ''.join('<property name="%s" type="%s" flags="%d"/>' % (p, 'gboolean' if p in ('visible', 'is-active') else 'gint', rng.choice([3, 3, 1, 11]))
                       for p in props) + '</class></dump>')
-    r = S.run(syms, comments=comments, includes=['GLib', 'GObject'], dump=ET.ElementTree(ET.fromstring(dump)), warnings=False)
+    # half of the worlds are scanned as namespace "Foolib" with identifier prefix Foo: the annotations above that say Foo.Hidden,
+    # Foo.Big ... then use the deprecated spelling (identifier prefix in place of the namespace name) and must still lead somewhere
+    nsname = rng.choice(['Foo', 'Foolib'])
+    r = S.run(syms, comments=comments, nsname=nsname, identifier_prefixes=['Foo'], symbol_prefixes=['foo'], includes=['GLib', 'GObject'],
+              dump=ET.ElementTree(ET.fromstring(dump)), warnings=False)
     return r.xml
 
 
